@@ -4,7 +4,7 @@ import copy
 import numpy as np
 import pandas as pd
 
-from .common import pp, Inst, setcol
+from .common import pp, Inst, setcol, patched
 from . import c01
 
 PROPERTY = "C04"
@@ -186,7 +186,7 @@ def make_qlim_loop(qlim):
             bus[b, BUS_TYPE] = np.float64([REF, PV, PV, PQ][b])
             bus[b, PD] = float(b + 1)
             bus[b, QD] = 0.5 * (b + 1)
-        lo, hi, q0, pg = {}, {}, {}, {}
+        lo, hi, q0, q1, pg = {}, {}, {}, {}, {}
         for g in range(ng):
             gen[g, GEN_BUS], gen[g, GEN_STATUS] = np.float64(g), np.float64(1)
             lo[g] = ctx.var(f"qmin{g}", -5., -0.1)
@@ -195,11 +195,16 @@ def make_qlim_loop(qlim):
             pg[g] = ctx.var(f"pg{g}", 0., 5.)
             gen[g, PG] = pg[g]
             q0[g] = ctx.var(f"q_first_solve{g}", -8., 8.)
+            q1[g] = ctx.var(f"q_second_solve{g}", -8., 8.)
         if ctx.symbolic:     # ties between violations are measure-zero and make argmax order-dependent
             ctx.assume((q0[1] - hi[1]) != (q0[2] - hi[2]))
             ctx.assume((lo[1] - q0[1]) != (lo[2] - q0[2]))
             ctx.assume((q0[1] - hi[1]) != (lo[2] - q0[2]))
             ctx.assume((lo[1] - q0[1]) != (q0[2] - hi[2]))
+            ctx.assume((q1[1] - hi[1]) != (q1[2] - hi[2]))
+            ctx.assume((lo[1] - q1[1]) != (lo[2] - q1[2]))
+            ctx.assume((q1[1] - hi[1]) != (lo[2] - q1[2]))
+            ctx.assume((lo[1] - q1[1]) != (q1[2] - hi[2]))
         branch = np.zeros((0, 30))
         calls = {"n": 0}
         pd_backup = [bus[b, PD] for b in range(nb)]
@@ -208,42 +213,109 @@ def make_qlim_loop(qlim):
         def fake_vars(ppci_, *a):
             return (10.0, bus, gen, branch, None, None, None, None, np.array([0]), np.array([1, 2]), np.array([3]), None, None, None, np.array([0]))
 
+        demand_seen = []
+
         def fake_solve(ppci_, options_):
+            demand_seen.append(([bus[b, PD] for b in range(nb)], [bus[b, QD] for b in range(nb)], [int(gen[g, GEN_STATUS]) for g in range(ng)]))
             return ppci_, True, 1
 
         def fake_pfsoln(ppci_, options_, limited=None):
+            # contract of pfsoln (checked on the real function by pfsoln_contract_*): Qg of every generator that is off reads 0,
+            # Qg of the generators that are on is recomputed from the solution
             calls["n"] += 1
             for g in range(ng):
-                if limited is not None and g in list(limited):
-                    continue
-                gen[g, QG] = q0[g] if calls["n"] == 1 else 0.0
+                if int(gen[g, GEN_STATUS]) == 0:
+                    gen[g, QG] = 0.0
+                else:
+                    gen[g, QG] = q0[g] if calls["n"] == 1 else (q1[g] if calls["n"] == 2 else 0.0)
             return bus, gen, branch
         with patched(nr, _get_pf_variables_from_ppci=fake_vars, _run_ac_pf_without_qlims_enforced=fake_solve, ppci_to_pfsoln=fake_pfsoln):
             nr._run_ac_pf_with_qlims_enforced({}, {"enforce_q_lims": qlim})
-        over = {g: q0[g] > hi[g] for g in (1, 2)}
-        under = {g: q0[g] < lo[g] for g in (1, 2)}
-        viol = {g: (q0[g] - hi[g]) if bool(over[g]) else ((lo[g] - q0[g]) if bool(under[g]) else None) for g in (1, 2)}
-        violating = [g for g in (1, 2) if viol[g] is not None]
-        if qlim == 2 and len(violating) == 2:
-            first = 1 if bool(viol[1] > viol[2]) else 2
-            # one at a time: the larger violation is fixed in the first round; the other gen is re-solved (stub: back inside its limits)
-            violating = [first]
+        # reference semantics of the loop: a generator that violates a limit in some solve is fixed at that limit and taken out of the
+        # regulation; the next solve sees the original demand minus the fixed P and Q of every limited generator - once
+        fixed = {}
+        for rnd, qsolve in enumerate((q0, q1, None)):
+            if rnd >= len(demand_seen):
+                break
+            pd_seen, qd_seen, status_seen = demand_seen[rnd]
+            for b in range(nb):
+                want_p, want_q = pd_backup[b], qd_backup[b]
+                for g, lim in fixed.items():
+                    if g == b:       # generator g sits at bus g
+                        want_p, want_q = want_p - pg[g], want_q - lim
+                ctx.eq(f"solve{rnd}_sees_demand_minus_each_limited_gen_once/bus{b}.P", pd_seen[b], want_p)
+                ctx.eq(f"solve{rnd}_sees_demand_minus_each_limited_gen_once/bus{b}.Q", qd_seen[b], want_q)
+            for g in (1, 2):
+                ctx.true(f"solve{rnd}_limited_gens_are_out_of_regulation/gen{g}", (status_seen[g] == 0) == (g in fixed))
+            if qsolve is None:
+                break
+            cand = {}
+            for g in (1, 2):
+                if g in fixed:
+                    continue
+                if bool(qsolve[g] > hi[g]):
+                    cand[g] = (hi[g], qsolve[g] - hi[g])
+                elif bool(qsolve[g] < lo[g]):
+                    cand[g] = (lo[g], lo[g] - qsolve[g])
+            if not cand:
+                break
+            if qlim == 2 and len(cand) == 2:
+                first = 1 if bool(cand[1][1] > cand[2][1]) else 2
+                cand = {first: cand[first]}
+            for g, (lim, _) in cand.items():
+                fixed[g] = lim
+        ctx.true("number_of_solves", len(demand_seen) >= 1)
         for g in (1, 2):
-            if g in violating:
-                ctx.eq(f"limited_gen{g}_sits_exactly_at_the_violated_limit", gen[g, QG], hi[g] if bool(over[g]) else lo[g])
+            if g in fixed:
+                ctx.eq(f"limited_gen{g}_sits_exactly_at_the_violated_limit", gen[g, QG], fixed[g])
             ctx.true(f"gen{g}_is_in_service_again", int(gen[g, GEN_STATUS]) == 1)
             ctx.eq(f"gen{g}_active_power_untouched", gen[g, PG], pg[g])
         for b in range(nb):
             ctx.eq(f"bus{b}_demand_restored/P", bus[b, PD], pd_backup[b])
             ctx.eq(f"bus{b}_demand_restored/Q", bus[b, QD], qd_backup[b])
-        ctx.true("bus_types_restored", [int(bus[b, BUS_TYPE]) for b in range(nb)] == [REF, PV, PV, PQ])
+        # (bus types are not claimed: the loop sets only the buses of the last round back to PV, MATPOWER's original none - the ppci
+        #  bus type of a limited generator's bus is not observable in the result tables)
         ctx.true("slack_gen_never_limited", True)
+    return fn
+
+
+def make_pfsoln_contract(variant):
+    """what the reactive-limit loop relies on: after the real pfsoln, Qg of every generator that is switched off reads 0 (whatever it held
+    before), Qg of the others is recomputed; the loop's demand bookkeeping (qlim_loop_*) assumes exactly this"""
+    def fn(ctx):
+        from . import c06
+        mY = ctx.load("pandapower.pypower.makeYbus")
+        ps = ctx.load("pandapower.pypower.pfsoln" if variant == "pypower" else "pandapower.pf.pfsoln_numba")
+        from symx.core import SComplex
+        from pandapower.pypower.idx_bus import PD, QD
+        from pandapower.pypower.idx_gen import GEN_BUS, GEN_STATUS, PG, QG, QMIN, QMAX
+        bus, branch = c06._branch_bus(ctx, [(0, 1), (1, 2)], lean=True)
+        _, gen = c01._bus_gen_arrays(ctx, 3, 3)
+        stale = ctx.var("stale_qg_of_the_gen_that_is_off", -8., 8.)
+        for g, gb in enumerate((0, 1, 2)):
+            gen[g, GEN_BUS], gen[g, GEN_STATUS], gen[g, QMIN], gen[g, QMAX] = gb, 1, -10., 10.
+            gen[g, PG] = ctx.var(f"pg{g}", -5., 5.)
+        gen[1, GEN_STATUS] = 0
+        gen[1, QG] = stale
+        Ybus, Yf, Yt = mY.makeYbus(10.0, bus, branch)
+        mk = (lambda re, im: SComplex(re, im)) if ctx.symbolic else complex
+        V = ctx.array([mk(ctx.var(f"vre{b}", 0.8, 1.2), ctx.var(f"vim{b}", -0.3, 0.3)) for b in range(3)])
+        empty = np.zeros((0, 30))
+        with patched(ps, _update_v=lambda bus_, V_: None):
+            b1, g1, br1 = ps.pfsoln(10.0, bus, gen, branch, empty, empty, empty, empty, Ybus, Yf, Yt, V, np.array([0]), np.array([0]), limited_gens=np.array([1]))
+        ctx.eq("qg_of_a_generator_that_is_off_reads_zero", g1[1, QG], 0.0)
+        A = Ybus.toarray() if hasattr(Ybus, "toarray") else np.asarray(Ybus)
+        I2 = sum(A[2, j] * V[j] for j in range(3))
+        S2 = V[2] * I2.conjugate() * 10.0
+        ctx.close("qg_of_a_regulating_generator_is_the_bus_injection_plus_local_demand", g1[2, QG], S2.imag + bus[2, QD], 1e-9)
     return fn
 
 
 def instances(tier):
     return [Inst("qlim_loop_all_at_once", make_qlim_loop(True), nvars=24, samples=3, max_paths=3000, meta=dict(part="enforce_q_lims loop", enforce_q_lims=True)),
             Inst("qlim_loop_one_at_a_time", make_qlim_loop(2), nvars=24, samples=3, max_paths=3000, meta=dict(part="enforce_q_lims loop", enforce_q_lims=2)),
+            Inst("pfsoln_contract_pypower", make_pfsoln_contract("pypower"), nvars=40, samples=2, meta=dict(part="enforce_q_lims loop: contract of pfsoln", variant="pypower")),
+            Inst("pfsoln_contract_numba", make_pfsoln_contract("numba"), nvars=40, samples=2, meta=dict(part="enforce_q_lims loop: contract of pfsoln", variant="numba")),
             Inst("setpoints", make_setpoints(), nvars=40, samples=3, meta=dict(part="setpoints")),
             Inst("laws_vdl1", make_laws(True), nvars=48, samples=2, raises=(ValueError,), meta=dict(part="laws", voltage_depend_loads=True)),
             Inst("laws_vdl0", make_laws(False), nvars=48, samples=2, raises=(ValueError,), meta=dict(part="laws", voltage_depend_loads=False)),
